@@ -19,9 +19,12 @@ import LMV.Driver.Util
     c17pvalue    <obs> <alpha> <pvalue|score|maxscore> <method hex>
     c17rc        <obs> <alpha>
     c17scan      <obs> <pssm alpha> <seq alpha>
+    c17reuse     <obs> <k> <c | s | S>*k        ONE striped sequence (DNA) used by k steps in order:
+                                                calculate / scan() / Scanner();  obs = ok:chain… | <exception>@<step>
     c17create    <obs> <alpha> <n> <item hex | - | #>*n
     c17stripe    <obs> <alpha> <text hex | ->
     c17load      <init obs> <file kind> <format hex> <protein 0|1> <n> (<record kind> <record obs>)*n
+                 file kind := path | missing | binary | chunked | boundary | text | bytearray | memoryview | noread
     c17cminit    <alpha> <column>*K        column := - | # | <n> <int | x>*n       (exact answer)
     c17sminit    <alpha> <pyarg> <column>*K     column := - | # | <n> <bits | x>*n  (exact answer)
 -/
@@ -29,7 +32,7 @@ namespace LMV.Driver.C17
 open LMV LMV.PyApi LMV.Driver
 
 def ops : List String :=
-  ["c17normalize", "c17logodds", "c17calc", "c17pvalue", "c17rc", "c17scan", "c17create", "c17stripe",
+  ["c17normalize", "c17logodds", "c17calc", "c17pvalue", "c17rc", "c17scan", "c17reuse", "c17create", "c17stripe",
    "c17load", "c17cminit", "c17sminit"]
 
 def tagOf (s : String) : Tag := if s == "protein" then .protein else .dna
@@ -97,6 +100,23 @@ def parseColumns (isInt : Bool) : Nat → List String → List (Option (Option (
     parseColumns isInt k (rest.drop n) (some (some ents) :: acc)
   | _, [], acc => acc.reverse
 
+/-- a reuse history of ONE Python `StripedSequence` (DNA): every step is `ScoringMatrix.calculate`
+    (`c`) or `Scanner.__init__` (`s`: through `scan()`, `S`: the class), and leaves the sequence
+    configured for its motif.  Returns the value term of every step (scores / scanner), or the
+    exception and the step that raises it. -/
+def reuseAll (seq : Term) : List (String × Term) → Nat → Except (Exc × Nat) (List Term)
+  | [], _ => .ok []
+  | (kind, pssm) :: rest, i =>
+    let step : Except Exc (Term × Term) :=
+      if kind == "c" then calculate .dna .dna pssm seq
+      else (scannerInit .dna .dna pssm seq 0 0).map fun t => (t, Term.app2 .configure seq pssm)
+    match step with
+    | .error e => .error (e, i)
+    | .ok (v, seq') =>
+      match reuseAll seq' rest (i + 1) with
+      | .error e => .error e
+      | .ok vs => .ok (v :: vs)
+
 def handle (toks : List String) : String :=
   match toks with
   | "c17normalize" :: obs :: alpha :: rest =>
@@ -131,13 +151,31 @@ def handle (toks : List String) : String :=
   | "c17rc" :: obs :: alpha :: _ => admissible obs (reverseComplement (tagOf alpha) (.arg "self"))
   | "c17scan" :: obs :: pa :: sa :: _ =>
     admissible obs (scannerInit (tagOf pa) (tagOf sa) (.arg "pssm") (.arg "sequence") 0 0)
+  | "c17reuse" :: obs :: k :: rest =>
+    let steps := ((rest.take (parseNat! k)).zip (List.range (parseNat! k))).map fun (kind, i) =>
+      (kind, Term.arg s!"pssm{i}")
+    (match reuseAll (.arg "sequence") steps 0 with
+     | .ok vals =>
+       -- step i runs on `configure(… configure(sequence, pssm_0) …, pssm_i)`: i + 1 configurations, the
+       -- last one with the motif of the step itself
+       let chained := (vals.zip (List.range vals.length)).all fun (t, i) =>
+         (t.ops.filter (· == Op.configure)).length == i + 1
+       if obs.startsWith "ok:" && (((obs.drop 3).toString).splitOn ",").contains "chain" && chained then "adm-ok"
+       else s!"adm-bad model: {vals.length} steps, each configuring the sequence for its motif; observed {obs}"
+     | .error (e, i) =>
+       if obs == s!"{e.name}@{i}" then "adm-ok" else s!"adm-bad model raises {e.name} at step {i}, observed {obs}")
   | "c17create" :: obs :: alpha :: n :: rest =>
     let items := (rest.take (parseNat! n)).map fun t => if t == "#" then none else some (unhex t)
     admissible obs (create (tagOf alpha) items)
   | "c17stripe" :: obs :: alpha :: text :: _ => admissible obs (stripe (tagOf alpha) (unhex text))
   | "c17load" :: obs :: kind :: format :: prot :: n :: rest =>
     let file : FileArg := match kind with
-      | "path" => .path true | "missing" => .path false | "binary" => .binary | "text" => .text | _ => .noRead
+      | "path" => .path true | "missing" => .path false | "text" => .text
+      -- file-like objects that are not io classes: `read(0)` returns `bytes` (whatever the size of the
+      -- chunks later reads return) / returns `bytearray`, `memoryview` (not `bytes`: refused like text)
+      | "binary" | "chunked" | "boundary" => .binary
+      | "bytearray" | "memoryview" => .text
+      | _ => .noRead
     let fmt := unhexStr format
     let first := admissible obs (loaderInit file fmt (prot == "1"))
     let rec recs : Nat → List String → List String → List String
